@@ -169,7 +169,7 @@ pub fn update_position_reply(
     } else if swap.margin_to_vault > Integer::zero() {
         match config.eligible_collateral {
             AssetInfo::NativeToken { .. } => {
-                funds.required = funds.required.checked_add(swap_margin)?;
+                funds.required = funds.required.checked_add(swap.margin_to_vault.value)?;
             }
             AssetInfo::Token { .. } => {
                 msgs.push(
@@ -320,15 +320,8 @@ pub fn reverse_position_reply(
         // set fees_paid flag to true so they aren't paid twice
         swap.fees_paid = true;
 
-        // update the funds required
-        funds.required = if swap.margin_to_vault.is_positive() {
-            funds.required.checked_add(swap.margin_to_vault.value)?
-        } else if funds.required > swap.margin_to_vault.value {
-            funds.required.checked_sub(swap.margin_to_vault.value)?
-        } else {
-            // add both fees
-            fees.spread_fee.checked_add(fees.toll_fee)?
-        };
+        // the margin of the re-opened position is counted, net of what the old position releases,
+        // when the re-opening swap is answered (update_position_reply)
 
         msgs.push(internal_increase_position(
             swap.vamm.clone(),
